@@ -1,7 +1,8 @@
 /-
   C19 — the dict-level consequences of exclusion + lock discipline: `_documents` never changes
-  under a reader (`snapshot`), an iteration over it is never disturbed, no error is ever raised
-  by the store's own bookkeeping as long as no thread changes `_ttl_indexes` concurrently.
+  under a reader (`snapshot`), an iteration over it is never disturbed, and no error is ever
+  raised by the store's own bookkeeping — also when threads create TTL indexes / drop indexes
+  concurrently, because `_ttl_indexes` is only ever walked through a snapshot.
 -/
 import Proofs.C19Lift
 namespace MongoModel.RWLock
@@ -10,10 +11,6 @@ namespace MongoModel.RWLock
 
 theorem setDict_docs (sh : Shared) (d : Dict) (v : List Nat) (h : d ≠ .docs) :
     (sh.setDict d v).docs = sh.docs := by
-  cases d <;> simp [Shared.setDict] at h ⊢
-
-theorem setDict_ttl (sh : Shared) (d : Dict) (v : List Nat) (h : d ≠ .ttl) :
-    (sh.setDict d v).ttl = sh.ttl := by
   cases d <;> simp [Shared.setDict] at h ⊢
 
 theorem dictOp_docs {cfg : Cfg} {code sh th ins e} (h : dictOp cfg code sh th ins = some e)
@@ -35,26 +32,6 @@ theorem dictOp_docs {cfg : Cfg} {code sh th ins e} (h : dictOp cfg code sh th in
       | ((repeat' split at h) <;> first
           | (simp at h; done)
           | (simp only [Option.some.injEq] at h; subst h; exact ⟨rfl, rfl⟩))
-
-theorem dictOp_ttl {cfg : Cfg} {code sh th ins e} (h : dictOp cfg code sh th ins = some e)
-    (hm : mutatesTtl ins = false) : e.sh.ttl = sh.ttl := by
-  cases ins with
-  | setItem d k =>
-    cases d <;> simp [mutatesTtl] at hm <;> simp only [dictOp] at h <;>
-      (repeat' split at h) <;> simp at h <;> subst h <;> simp [Shared.setDict]
-  | delItem d k n =>
-    cases d <;> simp [mutatesTtl] at hm <;> simp only [dictOp] at h <;>
-      (repeat' split at h) <;> simp at h <;> subst h <;> simp [Shared.setDict]
-  | popItem d k =>
-    cases d <;> simp [mutatesTtl] at hm <;> simp only [dictOp] at h <;>
-      (repeat' split at h) <;> simp at h <;> subst h <;> simp [Shared.setDict]
-  | _ =>
-    simp only [dictOp] at h
-    first
-      | (simp at h; done)
-      | ((repeat' split at h) <;> first
-          | (simp at h; done)
-          | (simp only [Option.some.injEq] at h; subst h; rfl))
 
 theorem dictOp_dIt {cfg : Cfg} {code sh th ins e} (h : dictOp cfg code sh th ins = some e)
     {p n : Nat} {d : Bool} (hd : e.th.dIt = some (p, n, d)) :
@@ -96,7 +73,7 @@ theorem dictOp_newFault {cfg : Cfg} {code sh th ins e} (h : dictOp cfg code sh t
     {f : Fault} (hf : e.th.fault = some f) :
     th.fault = some f ∨
     (f = .docsMutated ∧ ∃ p n, th.dIt = some (p, n, true)) ∨
-    (f = .ttlChangedSize ∧ ∃ p n, th.tIt = some (p, n) ∧ sh.ttl.length ≠ n) ∨
+    (f = .ttlChangedSize ∧ ins = .iterNext .ttl) ∨
     (f = .expiryKeyError ∧ ∃ d k, ins = .delItem d k true) := by
   cases ins with
   | iterNext dd =>
@@ -113,11 +90,10 @@ theorem dictOp_newFault {cfg : Cfg} {code sh th ins e} (h : dictOp cfg code sh t
       · exact Or.inl (by simpa [Thread.goto] using hf)
     · simp at h
     · (repeat' split at h) <;> simp at h <;> subst h
-      · rename_i pos size htit hne
-        rcases raise_fault _ _ _ _ hf with h1 | h1
+      · rcases raise_fault _ _ _ _ hf with h1 | h1
         · exact Or.inl h1
         · simp at h1; subst h1
-          exact Or.inr (Or.inr (Or.inl ⟨rfl, pos, size, htit, by simpa using hne⟩))
+          exact Or.inr (Or.inr (Or.inl ⟨rfl, rfl⟩))
       · exact Or.inl (by simpa [Thread.goto] using hf)
       · exact Or.inl (by simpa [Thread.next] using hf)
       · exact Or.inl (by simpa [Thread.goto] using hf)
@@ -145,38 +121,6 @@ theorem dictOp_newFault {cfg : Cfg} {code sh th ins e} (h : dictOp cfg code sh t
                  · exact Or.inl h1
                  · simp at h1)))
 
-theorem dictOp_tIt {cfg : Cfg} {code sh th ins e} (h : dictOp cfg code sh th ins = some e)
-    {p n : Nat} (hd : e.th.tIt = some (p, n)) :
-    n = sh.ttl.length ∨ ∃ p', th.tIt = some (p', n) := by
-  cases ins with
-  | iterBegin dd =>
-    cases dd <;> simp only [dictOp] at h <;> simp at h <;> subst h
-    · exact Or.inr ⟨p, by simpa [Thread.next] using hd⟩
-    · simp [Thread.next] at hd; exact Or.inl hd.2.symm
-  | iterNext dd =>
-    cases dd <;> simp only [dictOp] at h
-    · (repeat' split at h) <;> simp at h <;> subst h <;>
-        simp [Thread.raise, Thread.next, Thread.goto] at hd <;>
-        exact Or.inr ⟨p, hd⟩
-    · simp at h
-    · (repeat' split at h) <;> simp at h <;> subst h <;>
-        simp [Thread.raise, Thread.next, Thread.goto] at hd
-      · rename_i pos size htit _ _
-        obtain ⟨rfl, rfl⟩ := hd
-        exact Or.inr ⟨pos, htit⟩
-      · rename_i hnone
-        rw [hnone] at hd; simp at hd
-  | _ =>
-    simp only [dictOp] at h
-    first
-      | (simp at h; done)
-      | ((repeat' split at h) <;> first
-          | (simp at h; done)
-          | (simp only [Option.some.injEq] at h; subst h;
-             first
-              | (simp [Thread.raise] at hd; done)
-              | exact Or.inr ⟨p, by simpa [Thread.next, Thread.goto] using hd⟩))
-
 /-! ### the store-level invariant -/
 
 theorem code_all {cfg : Cfg} {p : Code → Bool} (hnil : p [] = true)
@@ -191,9 +135,9 @@ theorem code_all {cfg : Cfg} {p : Code → Bool} (hnil : p [] = true)
 
 theorem disciplined_code {cfg : Cfg} (h : cfg.disciplined = true) (t : Nat) :
     docsGuarded (cfg.code t) = true ∧ docsIterScoped (cfg.code t) = true ∧
-      noNestedDel (cfg.code t) = true := by
-  have := code_all (p := fun c => docsGuarded c && docsIterScoped c && noNestedDel c)
-    (by rfl) h t
+      noNestedDel (cfg.code t) = true ∧ ttlIterSnapshotted (cfg.code t) = true := by
+  have := code_all (p := fun c => docsGuarded c && docsIterScoped c && noNestedDel c &&
+    ttlIterSnapshotted c) (by rfl) h t
   simpa [Bool.and_eq_true, and_assoc] using this
 
 theorem inLoop_some {code : Code} {pc : Nat} (h : inDocsLoop code pc = true) :
@@ -239,20 +183,14 @@ theorem exclusion_intro {cfg : Cfg} {s : State} {t u : Nat} (ht : t < s.ths.leng
 structure StoreInv (cfg : Cfg) (s : State) : Prop where
   iter : ∀ t th, s.ths[t]? = some th → ∀ p n d, th.dIt = some (p, n, d) →
     d = false ∧ inDocsLoop (cfg.code t) th.pc = true
-  ttl : s.sh.ttl = cfg.ttl0
-  tit : ∀ th ∈ s.ths, ∀ p n, th.tIt = some (p, n) → n = cfg.ttl0.length
   nofault : ∀ th ∈ s.ths, th.fault = none
 
 theorem storeInv_init (cfg : Cfg) : StoreInv cfg (initState cfg) := by
-  refine ⟨?_, rfl, ?_, ?_⟩
+  refine ⟨?_, ?_⟩
   · intro t th hth p n d hd
     simp only [initState, List.getElem?_map] at hth
     cases hc : cfg.codes[t]? <;> simp [hc] at hth
     subst hth; simp [Thread.init] at hd
-  · intro th hmem p n hd
-    simp only [initState, List.mem_map] at hmem
-    obtain ⟨_, _, rfl⟩ := hmem
-    simp [Thread.init] at hd
   · intro th hmem
     simp only [initState, List.mem_map] at hmem
     obtain ⟨_, _, rfl⟩ := hmem
@@ -276,7 +214,7 @@ theorem mem_set_cases {α} {xs : List α} {t : Nat} {a x : α} (h : x ∈ xs.set
     x ∈ xs ∨ x = a := List.mem_or_eq_of_mem_set h
 
 theorem storeInv_step {P : Protocol} {cfg : Cfg} (_hc : cfg.conformant P = true)
-    (hd : cfg.disciplined = true) (hfz : cfg.ttlFrozen = true) {s s' : State} {t : Nat}
+    (hd : cfg.disciplined = true) {s s' : State} {t : Nat}
     (hex : exclusionViolated cfg s = false) (hnl' : noLockFault s') (hinv : StoreInv cfg s)
     (h : step cfg s t = some s') : StoreInv cfg s' := by
   obtain ⟨th, ins, e, hth, hins, he, hs'⟩ := step_cases h
@@ -285,7 +223,7 @@ theorem storeInv_step {P : Protocol} {cfg : Cfg} (_hc : cfg.conformant P = true)
     · exact h'
     · simp [List.getElem?_eq_none h'] at hth
   have hthmem : th ∈ s.ths := List.mem_of_getElem? hth
-  obtain ⟨hguard, hscoped, hnodel⟩ := disciplined_code hd t
+  obtain ⟨hguard, hscoped, hnodel, hsnap⟩ := disciplined_code hd t
   have htag : phaseAt cfg s t = ins.ph := by
     rw [tagAt_eq_phaseAt cfg s t th hth, tagAt, hins]
   -- the executing thread has no live iterator when its instruction is a protocol one
@@ -301,8 +239,7 @@ theorem storeInv_step {P : Protocol} {cfg : Cfg} (_hc : cfg.conformant P = true)
   by_cases hp : isProto ins.op = true
   · rcases exec_proto hp he with ⟨lk', _, hsh, hthn, hmut⟩ | ⟨_, _, hthn, _⟩
     · have hths : s'.ths = s.ths.set t th.next := by rw [hs', hmut, hthn]; rfl
-      have hsh' : s'.sh = { s.sh with lk := lk' } := by rw [hs', hsh]
-      refine ⟨?_, by rw [hsh']; exact hinv.ttl, ?_, ?_⟩
+      refine ⟨?_, ?_⟩
       · intro u thu hu p n d hit
         rw [hths, List.getElem?_set] at hu
         by_cases hut : t = u
@@ -313,11 +250,6 @@ theorem storeInv_step {P : Protocol} {cfg : Cfg} (_hc : cfg.conformant P = true)
           rw [hproto_noiter hp] at this; simp at this
         · simp only [hut, if_false] at hu
           exact hinv.iter u thu hu p n d hit
-      · intro x hx p n hit
-        rw [hths] at hx
-        rcases mem_set_cases hx with h1 | h1
-        · exact hinv.tit x h1 p n hit
-        · subst h1; exact hinv.tit th hthmem p n hit
       · intro x hx
         rw [hths] at hx
         rcases mem_set_cases hx with h1 | h1
@@ -385,12 +317,7 @@ theorem storeInv_step {P : Protocol} {cfg : Cfg} (_hc : cfg.conformant P = true)
           | none => rfl
           | some thu => simp [markDirty_noIter _ (hno u thu hu)]
       · rfl
-    have hmemTtl : mutatesTtl ins.op = false := by
-      have := code_all (p := RWLock.ttlFrozen) (by rfl) hfz t
-      simp only [RWLock.ttlFrozen, List.all_eq_true, Bool.not_eq_true'] at this
-      exact this ins (List.mem_of_getElem? hins)
-    have httl : e.sh.ttl = s.sh.ttl := dictOp_ttl hdo hmemTtl
-    refine ⟨?_, by rw [hs']; simp only; rw [httl]; exact hinv.ttl, ?_, ?_⟩
+    refine ⟨?_, ?_⟩
     · intro u thu hu p n d hit
       rw [hths, List.getElem?_set] at hu
       by_cases hut : t = u
@@ -402,14 +329,6 @@ theorem storeInv_step {P : Protocol} {cfg : Cfg} (_hc : cfg.conformant P = true)
           exact ⟨hdf, ((scoped_at hscoped hins).1 hl).2.2 _ hpc⟩
       · simp only [hut, if_false] at hu
         exact hinv.iter u thu hu p n d hit
-    · intro x hx p n hit
-      rw [hths] at hx
-      rcases mem_set_cases hx with h1 | h1
-      · exact hinv.tit x h1 p n hit
-      · subst h1
-        rcases dictOp_tIt hdo hit with h2 | ⟨p', h2⟩
-        · rw [h2, hinv.ttl]
-        · exact hinv.tit th hthmem p' n h2
     · intro x hx
       rw [hths] at hx
       rcases mem_set_cases hx with h1 | h1
@@ -419,32 +338,35 @@ theorem storeInv_step {P : Protocol} {cfg : Cfg} (_hc : cfg.conformant P = true)
         | none => rfl
         | some f =>
           exfalso
-          rcases dictOp_newFault hdo hf with h2 | ⟨_, p, n, h2⟩ | ⟨_, p, n, h2, h3⟩ | ⟨_, dd, k, h2⟩
+          rcases dictOp_newFault hdo hf with h2 | ⟨_, p, n, h2⟩ | ⟨_, h2⟩ | ⟨_, dd, k, h2⟩
           · rw [hinv.nofault th hthmem] at h2; simp at h2
           · have := (hinv.iter t th hth p n true h2).1; simp at this
-          · have := hinv.tit th hthmem p n h2
-            rw [hinv.ttl] at h3; exact h3 this.symm
+          · -- the live `_ttl_indexes` dict is never iterated: only snapshots of it are
+            simp only [ttlIterSnapshotted, List.all_eq_true, Bool.not_eq_true',
+              beq_eq_false_iff_ne] at hsnap
+            exact hsnap ins (List.mem_of_getElem? hins) h2
           · simp only [noNestedDel, List.all_eq_true] at hnodel
             have := hnodel ins (List.mem_of_getElem? hins)
             rw [h2] at this; simp at this
 
 theorem reach_storeInv {P : Protocol} {cfg : Cfg} (hc : cfg.conformant P = true)
-    (hg : PGood P cfg.codes.length) (hd : cfg.disciplined = true) (hfz : cfg.ttlFrozen = true) :
+    (hg : PGood P cfg.codes.length) (hd : cfg.disciplined = true) :
     ∀ s, Reach cfg s → StoreInv cfg s := by
   intro s hr
   induction hr with
   | init => exact storeInv_init cfg
   | step hprev hstep ih =>
-    exact storeInv_step hc hd hfz (program_safe hc hg _ hprev).1
+    exact storeInv_step hc hd (program_safe hc hg _ hprev).1
       (program_safe hc hg _ (Reach.step hprev hstep)).2.2.2 ih hstep
 
-/-- with the lock discipline in place and `_ttl_indexes` left alone, no reachable state is bad
-    (no exclusion violation, no error of any kind, no leaked lock) and none is deadlocked -/
+/-- with the lock discipline in place (which includes: `_ttl_indexes` is walked through snapshots
+    only) no reachable state is bad (no exclusion violation, no error of any kind, no leaked
+    lock) and none is deadlocked — whatever the threads do to `indexes` / `_ttl_indexes` -/
 theorem program_correct {P : Protocol} {cfg : Cfg} (hc : cfg.conformant P = true)
-    (hg : PGood P cfg.codes.length) (hd : cfg.disciplined = true) (hfz : cfg.ttlFrozen = true)
+    (hg : PGood P cfg.codes.length) (hd : cfg.disciplined = true)
     (s : State) (hr : Reach cfg s) : bad [] cfg s = false ∧ deadlocked cfg s = false := by
   obtain ⟨hex, hlk, hdl, _⟩ := program_safe hc hg s hr
-  have hinv := reach_storeInv hc hg hd hfz s hr
+  have hinv := reach_storeInv hc hg hd s hr
   refine ⟨?_, hdl⟩
   simp only [bad, hex, hlk, Bool.or_false, Bool.false_or]
   simp only [faulted, List.any_eq_false]
